@@ -34,3 +34,4 @@ def run(ck):
     routes.numpy_dispatch_transparent(ck, "C15.R5")
     sizes.resize_rules(ck, {"nint": "C02.R3"})
     funcs.route_selection(ck, "C07.R8")
+    fresh.no_hidden_state(ck, "C20.R8")                  # results depend on the documented state only (no caches / memos)
